@@ -39,13 +39,10 @@ impl TlsHandshaker {
         let stream = match connector.connect(domain, stream) {
             Ok(stream) => stream,
             Err(HandshakeError::Failure(err)) => return Err(err.into()),
-            Err(HandshakeError::WouldBlock(mut stream)) => loop {
-                match stream.handshake() {
-                    Ok(stream) => break stream,
-                    Err(HandshakeError::Failure(err)) => return Err(err.into()),
-                    Err(HandshakeError::WouldBlock(mid_stream)) => stream = mid_stream,
-                }
-            },
+            // The sockets are blocking ones: a read that "would block" is a read that ran into the read timeout.
+            Err(HandshakeError::WouldBlock(_)) => {
+                return Err(io::Error::new(io::ErrorKind::TimedOut, "timed out during the TLS handshake").into())
+            }
         };
         Ok(TlsStream { inner: stream })
     }
